@@ -59,6 +59,12 @@ QUEUE_FIFO = {'Queue'}
 QUEUE_NOT_FIFO = {'LifoQueue', 'PriorityQueue'}
 
 
+def pst_tags(st, call_ev, name_node):
+    """tags the argument carried when the call was made (recorded with the event)"""
+    at = (call_ev.x or {}).get('arg0_tags')
+    return at if at is not None else frozenset()
+
+
 def _count_class(n):
     return '0' if n == 0 else ('1' if n == 1 else 'many')
 
@@ -85,82 +91,122 @@ def _top_loop_segments(evs):
 
 
 # ----------------------------------------------------------------------------- C01
+def _emit_closure(cls, fn, seen=None):
+    """_emit plus the private helpers it reaches through self-calls"""
+    seen = seen if seen is not None else {}
+    if fn is None or fn.fq in seen:
+        return seen
+    seen[fn.fq] = fn
+    for n in own_nodes(fn.node):
+        if isinstance(n, ast.Call) and isinstance(n.func, ast.Attribute) and isinstance(n.func.value, ast.Name) \
+                and n.func.value.id == 'self' and n.func.attr.startswith('_') and n.func.attr not in (
+                    '_emit', '_retain_refs', '_release_refs'):
+            _emit_closure(cls, cls.find(n.func.attr), seen)
+    return seen
+
+
+def delivery_loops(cls, fn):
+    """[(function, For node, wrappers)] for every loop over self.downstreams in _emit and its helpers"""
+    from .idioms import local_defs
+    out = []
+    for f in _emit_closure(cls, fn).values():
+        ldefs = local_defs(f.node)
+        for l in own_nodes(f.node):
+            if not isinstance(l, ast.For):
+                continue
+            it = l.iter
+            wrappers = []
+            hops = 0
+            while hops < 4:
+                hops += 1
+                if isinstance(it, ast.Call) and isinstance(it.func, ast.Name) and len(it.args) == 1:
+                    wrappers.append(it.func.id)
+                    it = it.args[0]
+                elif isinstance(it, ast.Name) and len(ldefs.get(it.id, [])) == 1 and ldefs[it.id][0] is not None:
+                    it = ldefs[it.id][0]        # a snapshot bound to a local:  targets = list(self.downstreams)
+                else:
+                    break
+            sliced = any(isinstance(x, ast.Subscript) for x in ast.walk(l.iter)) or isinstance(it, ast.Subscript)
+            if self_field(it) == 'downstreams' and (isinstance(it, ast.Attribute) or sliced):
+                out.append((f, l, wrappers, sliced))
+    return out
+
+
 def check_fanout(ctx, R):
     M = ctx.model
     fn = M.method('streamz.core', 'Stream', '_emit')
     con = ctx.construct(fn)
-    loops = [n for n in own_nodes(fn.node) if isinstance(n, (ast.For, ast.While))]
-    fors = [n for n in loops if isinstance(n, ast.For)]
     ok, detail, line = True, '', fn.node.lineno
-    deliver = []
-    from .idioms import local_defs
-    ldefs = local_defs(fn.node)
-    for l in fors:
-        it = l.iter
-        wrappers = []
-        hops = 0
-        while hops < 4:
-            hops += 1
-            if isinstance(it, ast.Call) and isinstance(it.func, ast.Name) and len(it.args) == 1:
-                wrappers.append(it.func.id)
-                it = it.args[0]
-            elif isinstance(it, ast.Name) and len(ldefs.get(it.id, [])) == 1 and ldefs[it.id][0] is not None:
-                it = ldefs[it.id][0]        # a snapshot bound to a local:  targets = list(self.downstreams)
-            else:
-                break
-        if self_field(it) == 'downstreams' and isinstance(it, ast.Attribute):
-            deliver.append((l, wrappers))
+    deliver = delivery_loops(M.stream, fn)
+    loop_node = None
     if len(deliver) != 1:
         ok, detail = False, 'expected exactly one loop over self.downstreams, found %d' % len(deliver)
     else:
-        l, wrappers = deliver[0]
+        lf, l, wrappers, sliced = deliver[0]
+        loop_node = l
         line = l.lineno
         badw = [w for w in wrappers if w not in ('list', 'tuple', 'iter')]
         if badw:
             ok, detail = False, 'delivery order changed by %s(...) around self.downstreams' % badw[0]
-        if isinstance(l.iter, ast.Subscript) or any(isinstance(x, ast.Subscript) and self_field(x) == 'downstreams'
-                                                    for x in ast.walk(l.iter)):
+        if sliced:
             ok, detail = False, 'delivery loop slices self.downstreams'
-        var = l.target.id if isinstance(l.target, ast.Name) else None
-        calls = [c for c in ast.walk(l) if isinstance(c, ast.Call) and isinstance(c.func, ast.Attribute)
-                 and c.func.attr == 'update' and isinstance(c.func.value, ast.Name) and c.func.value.id == var]
-        if len(calls) != 1:
-            ok, detail = False, 'loop body must call <downstream>.update exactly once (found %d)' % len(calls)
-        else:
-            c = calls[0]
-            a0 = c.args[0] if c.args else next((k.value for k in c.keywords if k.arg == 'x'), None)
-            if not (isinstance(a0, ast.Name) and a0.id == 'x'):
-                ok, detail = False, 'update() is not called with the element parameter x itself (got %s)' % src(a0)
-            rebinds = [n for n in own_nodes(fn.node) if isinstance(n, (ast.Assign, ast.AugAssign)) and any(
-                isinstance(t, ast.Name) and t.id == 'x' for t in (n.targets if isinstance(n, ast.Assign) else [n.target]))]
-            if rebinds:
-                ok, detail = False, 'the element parameter x is re-bound inside _emit'
         for n in ast.walk(l):
             if isinstance(n, (ast.Break, ast.Continue)):
                 ok, detail = False, 'break/continue inside the delivery loop: a downstream can be skipped'
             if isinstance(n, ast.Return):
                 ok, detail = False, 'return inside the delivery loop'
-        # the call must not be conditional
-        for s in l.body:
-            if isinstance(s, (ast.If, ast.Try, ast.While, ast.For)) and any(x in calls for x in ast.walk(s)) \
-                    and not isinstance(s, ast.Try):
-                ok, detail = False, 'the update() call is conditional inside the delivery loop'
+        rebinds = [n for f_ in _emit_closure(M.stream, fn).values() for n in own_nodes(f_.node)
+                   if isinstance(n, (ast.Assign, ast.AugAssign)) and f_ is fn and any(
+                       isinstance(t, ast.Name) and t.id == 'x' for t in (n.targets if isinstance(n, ast.Assign) else [n.target]))]
+        if rebinds:
+            ok, detail = False, 'the element parameter x is re-bound inside _emit'
     R.ob('FANOUT', con, 'delivery-loop', ok, detail, ctx.where(fn, line))
-    # results flow into the returned list: every normal path's RETURN derives from the calls' results
-    bad = None
+    # per path: every iteration of the delivery loop calls <downstream>.update exactly once, unconditionally, with the
+    # element itself; what the calls return reaches the returned list
+    bad, badcall = None, None
     n = 0
+    returned_somewhere = False
     for st, status in ctx.paths(fn, M.stream):
         evs = st.events
         if not _normal(evs, status):
             continue
-        calls = [e for e in evs if e.kind == 'CALL' and e.c == 'update']
-        if not calls:
+        its = [i for i, e in enumerate(evs) if e.kind == 'ITER' and loop_node is not None and e.x.get('node') is loop_node]
+        if not its:
             continue
         n += 1
+        ends = [i for i, e in enumerate(evs) if e.kind in ('LOOPEXIT', 'LOOPCUT') and e.x and e.x.get('node') is loop_node]
+        end = min([i for i in ends if i > its[-1]] or [len(evs)])
+        bounds = its + [end]
+        ncalls = 0
+        for a_, b_ in zip(bounds, bounds[1:]):
+            seg = evs[a_:b_]
+            calls = [e for e in seg if e.kind == 'CALL' and e.c == 'update']
+            ncalls += len(calls)
+            if len(calls) != 1:
+                badcall = (evs, 'an iteration of the delivery loop calls update() %d time(s)' % len(calls))
+                continue
+            c = calls[0]
+            node = c.x['node']
+            a0 = node.args[0] if node.args else next((k.value for k in node.keywords if k.arg == 'x'), None)
+            if not (isinstance(a0, ast.Name) and pst_tags(st, c, a0) == frozenset({'p:x'})):
+                badcall = (evs, 'update() is not called with the element parameter x itself (got %s)' % src(a0))
+            # conditional call: a COND between the iteration start and the call that is not the type test on the result
+            idx = seg.index(c)
+            if any(e.kind == 'COND' and e.c is None for e in seg[:idx]):
+                badcall = (evs, 'the update() call is conditional inside the delivery loop')
         ladds = [e for e in evs if e.kind == 'LADD']
         rets = [e for e in evs if e.kind == 'RETURN' and e.depth == 0]
-        if len(ladds) < len(calls) or not rets or not (rets[-1].b and ({'x', 'p:x'} & set(rets[-1].b))):
+        # every result is added to an accumulator on every path; that the accumulator is what is returned is judged
+        # over the path set (a later filtering loop is enumerated independently of the delivery loop, so single paths
+        # with "one delivery, zero filter iterations" are infeasible combinations)
+        if len(ladds) < ncalls or not rets:
             bad = evs
+        if rets and rets[-1].b and ({'x', 'p:x'} & set(rets[-1].b)):
+            returned_somewhere = True
+    if n and not returned_somewhere and bad is None:
+        bad = []
+    R.ob('FANOUT', con, 'calls-update-once-with-x', badcall is None and n > 0, badcall[1] if badcall else '',
+         ctx.where(fn, fn.node.lineno), fmt_path(badcall[0]) if badcall else None, n)
     R.ob('FANOUT', con, 'results-returned', bad is None and n > 0,
          'what downstream.update() returned does not reach the list _emit returns', ctx.where(fn, fn.node.lineno),
          fmt_path(bad) if bad else None, n)
@@ -651,6 +697,8 @@ def buffer_pairs(ctx, cls):
 
 
 def _kind_class(e):
+    if e.kind == 'TK' and e.c == 'pop' and len((e.x or {}).get('args') or []) == 2:
+        return 'take?'          # d.pop(k, default): a no-op when the key is absent
     if e.kind == 'ST':
         if e.c in ('reset',) or (e.c == 'setitem' and e.x.get('empty')):
             return 'reset'
@@ -660,6 +708,24 @@ def _kind_class(e):
         return {'swap': 'take-all', 'clear': 'reset', 'pop': 'take', 'popleft': 'take', 'get': 'take', 'del': 'take',
                 'get_nowait': 'take', 'popitem': 'take', 'remove': 'take', 'discard': 'take'}.get(e.c)
     return None
+
+
+def _match_wild(a, b):
+    """sequences of mutation classes agree when 'take?' (pop with a default) may stand for a take or for nothing"""
+    def strip(seq):
+        return [k for k in seq if k != 'take?']
+    if strip(a) == strip(b):
+        return True
+    # a 'take?' on one side may face a real 'take' on the other
+    def variants(seq):
+        out = [[]]
+        for k in seq:
+            if k == 'take?':
+                out = [v + ['take'] for v in out] + [v for v in out]
+            else:
+                out = [v + [k] for v in out]
+        return out
+    return any(x == y for x in variants(a) for y in variants(b))
 
 
 def check_paired_buffer(ctx, R, classes):
@@ -675,6 +741,7 @@ def check_paired_buffer(ctx, R, classes):
                 con = ctx.construct(fn)
                 bad, n = None, 0
                 detail = ''
+                took_d = took_m = False
                 for st, status in ctx.paths(fn, cls):
                     evs = st.events
                     if not _normal(evs, status):
@@ -686,7 +753,9 @@ def check_paired_buffer(ctx, R, classes):
                     if not sd and not sm:
                         continue
                     n += 1
-                    if sd == sm:
+                    took_d = took_d or any(k in ('take', 'take?') for k in sd)
+                    took_m = took_m or any(k in ('take', 'take?') for k in sm)
+                    if sd == sm or _match_wild(sd, sm):
                         continue
                     # metadata adds may be guarded by truthiness of the (possibly empty) metadata
                     if cond_false(evs, len(evs), lambda a: a == 'metadata') and [k for k in sd if k != 'add'] == sm:
@@ -695,6 +764,9 @@ def check_paired_buffer(ctx, R, classes):
                         continue
                     bad = evs
                     detail = 'on one path self.%s sees %s but its twin self.%s sees %s' % (d, sd, m, sm)
+                if n and bad is None and took_d != took_m and not exc:
+                    bad, detail = [], 'entries are removed from self.%s but never from its twin self.%s' % (
+                        (d, m) if took_d else (m, d))
                 if n:
                     R.ob('PAIRED-BUFFER', con, '%s/%s' % (d, m), bad is None, detail, ctx.where(fn, fn.node.lineno),
                          fmt_path(bad) if bad else None, n)
@@ -1071,7 +1143,8 @@ def check_partition_timer(ctx, R):
             e = evs[arms[0]]
             first = cond_true(evs, arms[0], lambda a: a.replace(' ', '') in ('len(buffer)==1',) or ('== 1' in a and 'len(' in a))
             tgt = e.c or ''
-            stored = any(x.kind == 'ST' and x.a == '_callbacks' and x.c == 'setitem' and x.line == e.line for x in evs)
+            stored = any(x.kind == 'ST' and x.a == '_callbacks' and x.c == 'setitem' and (
+                x.line == e.line or ('defer@%d' % e.line) in (x.b or ())) for x in evs)
             args = [src(a) for a in e.x['node'].args]
             if not first or '_flush' not in tgt or not stored or len(args) < 3 or args[0] != 'self._timeout':
                 bad_arm = evs
